@@ -116,6 +116,8 @@ def run(ctx, rep):
             cn = origin_call(origin)
             if sync_true and c04.no_sync_requested(ctx, g, origin, v):
                 return None      # dead by R04.5: every request has sync = true
+            if c04.len_gt1_contradiction(g, origin, v, le1):
+                return None
             if c04.len_le1_fact(g, origin, v):
                 le1 = True
             if c04.files_empty_fact(g, cn, v):
